@@ -33,6 +33,5 @@ Proof.
   destruct (denote impl_flags_c04 u d) as [env|i]; [|destruct S]. destruct S as (vm & R).
   exists env, vm. split; [reflexivity|]. split; [exact R|].
   destruct (resolve_reachable u d st E) as [ops Eops].
-  apply (wiring_correct e u (rs_g st) dc tau ord stE names); auto. rewrite Eops. apply enc_inv_reachable; auto. rewrite <- Eops.
-  intros nm nm' n _ _ D. rewrite (rel_no_defs u K st env vm R n) in D. discriminate.
+  apply (wiring_correct e u (rs_g st) dc tau ord stE names); auto. rewrite Eops. apply enc_inv_reachable; auto.
 Qed.
